@@ -70,6 +70,13 @@ def _cases(tier, seed):
         seq = tuple(rng.choice(txn_gen.ALPHABET) for _ in range(rng.randint(4, 6)))
         label, f = rng.choice(faults)
         out.append(("sampled", seq, label, f))
+    # a fatal Produce error on one partition leader while the request to the other leader meets retriable faults: the
+    # sender dies with a batch still in flight / backing off, whose future must be failed too
+    fatal_produce = [(lb, f) for lb, f in faults[1:] if f["api"] == "Produce" and lb.startswith("fatal")]
+    for i in range(SAMPLED[tier] // 6):
+        tail = tuple(rng.choice(txn_gen.ALPHABET) for _ in range(rng.randint(0, 2)))
+        label, f = rng.choice(fatal_produce)
+        out.append(("fatal_plus_retriable", ("begin", "burst:0+1:2") + tail, label + "+retriable", dict(f, nth=rng.choice([1, 2]))))
     return out
 
 
@@ -88,7 +95,7 @@ def run_shard(params):
     for idx, (kind, seq, label, f) in enumerate(cases):
         if idx % params["n_shards"] != params["shard"]:
             continue
-        P = txn_gen.c16_params(seq, f, (params["seed"] * 31 + idx) % (2 ** 31))
+        P = txn_gen.c16_params(seq, f, (params["seed"] * 31 + idx) % (2 ** 31), fault_p=0.35 if kind == "fatal_plus_retriable" else 0.0)
         H = txn_sim.run_history(P)
         res["evaluations"] += 1
         if H["errors"] or H["sim_errors"]:
